@@ -28,7 +28,7 @@ def P0(kind):
 class World(object):
     """Real glue objects built from a parameter record p (and a selection kind)."""
 
-    def __init__(self, kind, attached, p):
+    def __init__(self, kind, attached, p, listen=False):
         from glue.core import Data, DataCollection
         from glue.core.component_link import ComponentLink
         self.violations = []
@@ -58,6 +58,22 @@ class World(object):
                 self.dc.add_link(self.link)
         self.target = self.img if kind == 'floodfill' else self.d
         self.state = KINDS[kind]['make'](self, p['s'])
+        self.seen_on_change = None
+        if listen:
+            # a hub listener that re-evaluates the selection when it is told that the data changed
+            # (what every viewer does); what it sees must already reflect the new values
+            from glue.core.hub import HubListener
+            from glue.core.message import NumericalDataChangedMessage
+            world = self
+
+            class Watcher(HubListener):
+                def notify(self, msg):
+                    try:
+                        world.seen_on_change = np.asarray(world.target.get_mask(world.state)).tolist()
+                    except Exception as e:
+                        world.seen_on_change = 'EXC:' + type(e).__name__
+            self.watcher = Watcher()
+            self.dc.hub.subscribe(self.watcher, NumericalDataChangedMessage)
         self.group = None
         if attached:
             self.group = self.dc.new_subset_group(subset_state=self.state, label='g')
@@ -408,7 +424,7 @@ class Scenario(object):
         self.evals = dict(EVALS)
 
     def new_world(self):
-        return World(self.kind, self.attached, P0(self.kind))
+        return World(self.kind, self.attached, P0(self.kind), listen=True)
 
     def opname(self, op):
         return op[0]
@@ -430,8 +446,16 @@ class Scenario(object):
                 self.evals[n](w)
             else:
                 real, model = self.table[n]
+                w.seen_on_change = None
                 real(w)
                 model(w.p)
+                if w.seen_on_change is not None:
+                    want = World(self.kind, self.attached, w.p).observe()['mask']
+                    if want == 'IncompatibleAttribute':
+                        want = 'EXC:IncompatibleAttribute'
+                    if core.jdump(w.seen_on_change) != core.jdump(want):
+                        w.violations.append(('stale-during-announcement', w.seen_on_change, want,
+                                             'mask evaluated by a hub listener while it is told about %s' % n))
         except Exception as e:
             import traceback
             w.violations.append(('mutation-raises', '%s: %s: %s' % (n, type(e).__name__, e), 'succeeds',
